@@ -244,4 +244,42 @@ PROPS = {
         "assumptions": ["the golden files were produced once from the pinned tree and are integrity-checked against SHA256SUMS",
                         "every file any other check produces is also parsed by the same pinned-layout reader (C05, C02, C10, C11, C16)"],
     },
+    "C04": {
+        "level": "exploration",
+        "rule": "cases = executions of real threads on the real database under the schedule controller: workers stop at the yield points inside jammdb "
+                "(begin: before/after lock, after header read, after registration/release, end; commit: start, before grow/data/header/sync/publish, after "
+                "publish; resize: before map lock / map mutex, after remap; drop) and at harness points; exactly one worker is released at a time; a released "
+                "worker that blocks in the kernel is recognised by its thread state (futex) and another one is released. Strategies: breadth-first "
+                "enumeration of all schedules with <= P preemptions (P=2 quick, 3 thorough; budget-limited, see dfs_bound), seeded PCT priorities and "
+                "uniform random choices, and free-running stress with seeded sleeps at the same points. distinct = distinct sequence of (worker, point) "
+                "decisions; non-trivial = execution with at least one preemption or lock-blocked worker (or a free-running one). "
+                "Scenarios: 1-2 reader threads (1-2 read transactions each, re-reading 1-2 times) against one writer thread chaining 2-4 page-reusing "
+                "commits, one variant with a commit that grows the file. Oracle from a global event counter: a reader's first full read must equal a "
+                "committed state S_i with (#commits returned before its begin was called) <= i <= (#commits started before its begin returned); every "
+                "re-read must equal the first; no writer alive during the reader's life may have pages reachable from the reader's (older) snapshot in "
+                "its private free set (probe hook); nothing panics.",
+        "run": generic(thorough_profiles=(), nshards=16, timeout_quick=1800),
+        "floors": {"any": {"executions": 1000, "preemptions": 1000, "reader_transactions_judged": 1000, "readers_that_outlived_a_later_commit": 100,
+                           "writer/reader_pairs_checked_for_free_set_safety": 500, "free_running_executions": 100}},
+        "assumptions": ["the total order of harness events comes from one SeqCst counter", "schedules are enumerated at the instrumented yield points only"],
+    },
+    "C09": {
+        "level": "exploration",
+        "rule": "cases = executions of real threads on the real database under the schedule controller: workers stop at the yield points inside jammdb "
+                "(begin: before/after lock, after header read, after registration/release, end; commit: start, before grow/data/header/sync/publish, after "
+                "publish; resize: before map lock / map mutex, after remap; drop) and at harness points; exactly one worker is released at a time; a released "
+                "worker that blocks in the kernel is recognised by its thread state (futex) and another one is released. Strategies: breadth-first "
+                "enumeration of all schedules with <= P preemptions (P=2 quick, 3 thorough; budget-limited, see dfs_bound), seeded PCT priorities and "
+                "uniform random choices, and free-running stress with seeded sleeps at the same points. distinct = distinct sequence of (worker, point) "
+                "decisions; non-trivial = execution with at least one preemption or lock-blocked worker (or a free-running one). "
+                "Scenarios: 2-3 writer threads doing read-modify-write increments of one counter (each also writes a unique key), one variant writing a "
+                "1 MiB value so that the file grows and is remapped, with 1-2 reader threads checking counter == number of increment keys inside one "
+                "snapshot. Oracle: a harness-side flag strictly inside the span the write transaction is open must never see two writers; final counter "
+                "== committed increments == increment keys; no counter value read by two committed increments; every thread finishes: a state in which "
+                "every unfinished worker sits in a futex wait is a deadlock; a reader found blocked while no writer is extending the file is a violation.",
+        "run": generic(thorough_profiles=(), nshards=16, timeout_quick=1800),
+        "floors": {"any": {"executions": 1000, "preemptions": 1000, "committed_increments": 3000, "workers_found_blocked_on_a_lock": 50,
+                           "free_running_executions": 100}},
+        "assumptions": ["each thread holds at most one transaction", "deadlock = every live worker in a futex wait with no event for 20 ms (baton) / 300 ms (free running)"],
+    },
 }
